@@ -8,6 +8,7 @@
 //   aopt <layer> <code> x<data> add_option(option(code, data))     -> "P 1 <view>"
 //   ropt <layer> <code>         remove_option(code)                 -> "P 0|1 <view>"
 //   sopt <layer> <code>         search_option(code)                 -> "O 0" | "O 1 x<data>"
+//   ptype                       "T <pdu_type()> <dynamic class of the root layer>"
 //   ext6 <layer> <type> x<data> IPv6::add_header(ext_header(type, data))
 //   icmpext <layer> x<data>     add an RFC 4884 extension object to an ICMP/ICMPv6 layer
 //   val <layer> <field> <value> the printed form of the argument set would pass -> "V <value>"
@@ -130,6 +131,10 @@ static void run(const Script& s) {
                 if (r < 0) { printf("N\n"); continue; }
                 if (op == "sopt") printf("O %d %s\n", r, found.c_str());
                 else printf("P %d %s\n", r, vacc::describe(*pkt).c_str());
+            } else if (op == "ptype" && pkt) {
+                // what the object claims to be (pdu_type()) next to what it is (the class the generated dynamic_cast chain finds)
+                std::ostringstream one; vacc::describe_layer(*pkt, one);
+                printf("T %d %s\n", (int)pkt->pdu_type(), one.str().substr(0, one.str().find(' ')).c_str());
             } else if (op == "ext6" && pkt) {
                 // IPv6::add_header(ext_header(type, data))
                 IPv6* l = dynamic_cast<IPv6*>(layer_at(pkt.get(), (int)num(t[1])));
